@@ -74,12 +74,13 @@ def run(tier, v):
     K = set(vlib.known_devs(PID))
     vec = os.path.join(wd, "vectors.ndjson")
     exp = {}
+    got_ = []
+    r = vlib.tlc("MC_C16", pid=PID, workers=8, tag_sink=lambda tag, o: got_.append(o), timeout=3000, heap="10g", coverage=False)
+    got_.sort(key=lambda o: (o["note"], bytes(o["bytes"])))           # TLC's workers print in no fixed order: sampling must not depend on it
     with open(vec, "w") as f:
-        def sink(tag, o):
-            i = len(exp)
+        for i, o in enumerate(got_):
             exp[i] = o
             f.write(json.dumps({"id": i, "op": "parse", "kind": "req" if o["isreq"] else "resp", "datas": [bytes(o["bytes"]).hex()]}) + "\n")
-        r = vlib.tlc("MC_C16", pid=PID, workers=8, tag_sink=sink, timeout=3000, heap="10g", coverage=False)
     out = os.path.join(wd, "observed.ndjson")
     vlib.run_hv("http", vec, out)
     n = 0
@@ -104,6 +105,36 @@ def run(tier, v):
             v.known_hit("D16_raw_payload", WHAT["D16_raw_payload"])
             continue
         v.violation(dict(ctx, differences=bad, observed=res.get("v", res["r"])))
+    # ---- one processor for many connections: the parser objects are meant to be reused (one per analyzer / worker); every connection
+    # start, in a seeded order, through ONE HttpProcessors instance -- each begins with a fresh HPACK context, whatever the previous
+    # call (of either kind) left behind: table-size updates, inserted entries, failed blocks
+    import random
+    order = sorted(exp, key=lambda i: bytes(exp[i]["bytes"]))        # (TLC's workers print in no fixed order)
+    random.Random(vlib.seed()).shuffle(order)
+    if tier != "thorough":
+        order = [i for i in order if exp[i]["note"] in ("dyn", "dynsettings", "special", "prefix", "framing") or i % 4 == 0]
+    # and, deliberately adjacent: every connection start that leaves a changed table limit or a non-empty table, followed by every
+    # response that relies on its own dynamic table
+    leaves = sorted((i for i in exp if exp[i]["note"] in ("dyn", "dynsettings")), key=lambda i: bytes(exp[i]["bytes"]))
+    needs = sorted((i for i in exp if exp[i]["note"] == "respdyn"), key=lambda i: bytes(exp[i]["bytes"]))
+    for a in leaves:
+        for b in needs:
+            order += [a, b]
+    svec = os.path.join(wd, "shared.ndjson")
+    vlib.write_ndjson(svec, [{"id": i, "op": "parse", "shared": True, "kind": "req" if exp[i]["isreq"] else "resp", "datas": [bytes(exp[i]["bytes"]).hex()]} for i in order])
+    sout = os.path.join(wd, "shared.out")
+    vlib.run_hv("http", svec, sout)
+    prev = None
+    for o in vlib.read_ndjson(sout):
+        e = exp[o["id"]]
+        n += 1
+        res = o["out"][0]
+        bad = ["panic: " + res["e"]] if res["r"] == "panic" else ["not reported"] if res["r"] != "some" else diff(e["exp"], e["isreq"], res["v"])
+        if bad:
+            v.violation({"family": e["note"], "kind": "request" if e["isreq"] else "response", "bytes": bytes(e["bytes"]).hex()[:4000], "via": "a processor that has handled other connections before",
+                         "the_call_before": None if prev is None else {"family": exp[prev]["note"], "kind": "request" if exp[prev]["isreq"] else "response", "bytes": bytes(exp[prev]["bytes"]).hex()[:2000]},
+                         "differences": bad, "expected": e["exp"]})
+        prev = o["id"]
     # ---- the same connection starts as TCP connections through the OUTPUT layer of the crate (process_ipv4_packet: packet parser, flow
     # table, HTTP/2 processor, create_observable_package, matcher): the request / response handed to the caller there is the same
     from props import c10
